@@ -161,16 +161,16 @@ def run(rep):
     depth = 2 if quick else 3
     H = list(histories(depth))
     if not quick:
-        # depth 3 is 36 x larger: keep every history whose first query/registration is 'reuse' by the same actor as the second (cache carried over) and every 5th other
-        H = [h for n, h in enumerate(H) if (h[1][1]['actor'] == h[3][1]['actor'] and h[1][1]['reg'] == 'reuse') or n % 5 == rep.seed % 5]
+        # depth 3 is 324 x larger: keep the histories in which one actor reuses its provider across all three queries, and every 50th other
+        H = [h for n, h in enumerate(H) if (h[1][1]['actor'] == h[3][1]['actor'] == h[5][1]['actor'] and h[1][1]['reg'] == h[3][1]['reg'] == 'reuse') or n % 50 == rep.seed % 50]
     known = set(known_ids(rep.prop))
     rep.rule = ('histories W Q (W Q)^%d on one Parquet path in a fresh directory each: first write content A or C at a whole-second mtime; every rewrite = other content {A, B (equal encoded length to A), C (other length and row-group layout), D (strings without a Parquet dictionary)} '
                 'x mtime policy {same mtime, +0.5 s (same whole second), +2 s} x method {overwrite in place, write elsewhere + rename}; every query = one of 3 statements (scan, filtered aggregate, GROUP BY) '
                 'x actor process {QE_IPC_CACHE=0, =1 (builds sidecars), unset/auto (uses sidecars left by the builder)} x {reuse the registered provider, register anew}; '
                 'reference model: the current content; oracle: every query returns the current content and does not fail; the first deviation of a history is classified. %s'
-                % (depth - 1, 'all %d histories' % len(H) if quick else '%d histories: all with the cache carried over by one actor, every 5th of the rest (rotated by seed)' % len(H)))
+                % (depth - 1, 'all %d histories' % len(H) if quick else '%d histories: all in which one actor carries its registered provider and caches through the first two queries, every 50th of the rest (rotated by seed)' % len(H)))
     if not quick:
-        rep.caps.append('depth-3 histories: complete for same-actor reuse chains, every 5th otherwise')
+        rep.caps.append('depth-3 histories: complete for same-actor reuse chains, every 50th otherwise')
     chunks = [(rep.prop, i, H[i:i + 60], known) for i in range(0, len(H), 60)]
     lens = {}
     with mp.Pool(min(12, os.cpu_count() or 4), initializer=sqldiff._init) as pool:
